@@ -546,8 +546,12 @@ def check(run):
                    'Model/Peg.v: semantics of the nom combinators (validated by the same correspondences)',
                    'Spec/XPathSyntax.v: transcription of XPath 1.0 sections 2, 2.5, 3.7 (grammar, abbreviations, lexical structure)',
                    'harness/src/domains/xparse.rs, extraction (ExtrOcamlBasic only) + ocaml drivers']
+    phases = {}
+    t0 = time.time()
     proved, _ = lib.proof_step(run, PROP, ['T1', 'T2'])
+    phases['proofs'] = round(time.time() - t0, 1); t0 = time.time()
     okr, mok, sok = lib.build_binaries(run, model_areas=['xparse', 'peg'], spec_areas=['xparse'])
+    phases['binaries'] = round(time.time() - t0, 1); t0 = time.time()
     thorough = run.tier == 'thorough'
     if okr and mok.get('peg'):
         try:
@@ -555,12 +559,17 @@ def check(run):
             pegcorr.prod_correspondence(run, 'xpath', 60 if thorough else 8)
         except Exception as ex:
             run.tie_breaks.append('prod correspondence did not run: %s' % ex)
+    phases['prod'] = round(time.time() - t0, 1); t0 = time.time()
     if okr and mok.get('xparse'):
         grammar_correspondence(run, 6000 if thorough else 500)
+    phases['grammar-corr'] = round(time.time() - t0, 1); t0 = time.time()
     if okr and sok.get('xparse'):
         search(run, 4000 if thorough else 250, with_model=bool(mok.get('xparse')))
+    phases['search'] = round(time.time() - t0, 1); t0 = time.time()
     if okr:
         parser_totality(run, with_model=bool(mok.get('xparse')))
+    phases['totality'] = round(time.time() - t0, 1)
+    run.extra['phase_seconds'] = phases
     return run.finish(level='proof',
         rule='a case = one concrete spelling (string) of a generated tree; distinct by string; every spelling is evaluated on a document and compared with the other spellings of its tree',
         assumptions=['model of the nom combinators (Model/Peg.v) tied by the prod and xparse correspondences only',
